@@ -372,6 +372,9 @@ H("async_history_family", variant="x64-linux", modules=["rt", "x64dec", "async_a
 H("async_refake_same_function", variant="x64-linux", modules=["rt", "x64dec", "async_api"], functions=ASYNC_FUNCS, assumptions=ASYNC_ASSUME,
   symbolic="initial bytes of the poll function; value of the second replacement; register file",
   bounds="one async function faked twice through one injector (checked API), then dropped; unwind 26, memcmp 72", extra=ASYNC_EXTRA)
+H("async_refake_unchecked_same_function", variant="x64-linux", modules=["rt", "x64dec", "async_api"], functions=ASYNC_FUNCS, assumptions=ASYNC_ASSUME,
+  symbolic="initial bytes of the poll function; first fake checked or unchecked (symbolic), second fake through the unchecked flavour; register file",
+  bounds="one async function faked twice through one injector, the later fake via will_return_async_unchecked, then dropped; unwind 26, memcmp 72", extra=ASYNC_EXTRA)
 H("async_outputs_unit_and_large", variant="x64-linux", modules=["rt", "x64dec", "async_api"], functions=ASYNC_FUNCS, assumptions=ASYNC_ASSUME,
   symbolic="value inside a 64-byte output; initial bytes; register file",
   bounds="unit output and [u64; 8] output; unwind 26, memcmp 72", extra=ASYNC_EXTRA)
@@ -411,7 +414,7 @@ PROPERTIES = {
         seed_rotation=['arm_core_t32_aligned', 'x64_alloc_layout_16m', 'win_core_redirect', 'arm_core_a32'],
         level_text="OS-model accounting decided by the solver: every munmap must name a live trampoline with a matching length (else the obligation fails: double free or foreign memory), after each install the live set equals the guards, after drop it equals the set before creation; one install/drop cycle from a clean state ends clean for every placement, histories L<=2/3 and two consecutive lifetimes; 32-bit ARM never maps. Unbounded cycles follow by induction because the crate keeps no state between cycles except the lock (checked by a source scan, reported as an assumption).",
         level_note="The 10^5-cycle figure is covered by the one-cycle induction step, not executed. Kernel-side limits (vm.max_map_count) are outside. The refused-install and exhaustion paths are C05/C11.",
-        quick=["x64_core_redirect", "x64_core_boolean", "x64_api_hist_l1", "x64_alloc_any_4k", "arm_api_same2", "a64_core_boolean"],
+        quick=["x64_core_redirect", "x64_core_boolean", "x64_api_hist_l1", "x64_alloc_any_4k", "arm_api_same2", "a64_core_boolean", "panic_at_p2"],
         thorough=["x64_core_redirect", "x64_core_boolean", "x64_api_hist_l2", "x64_api_hist_l3", "x64_api_hist_l1x2", "x64_alloc_any_4k", "x64_alloc_layout_16m", "a64_alloc_any_4k", "arm_core_a32", "arm_api_same2", "win_core_redirect"],
         premises=["premise_only_static_is_lock"],
         outside=["cycle counts are covered by induction over one cycle, not unrolled beyond 2"],
@@ -502,8 +505,8 @@ PROPERTIES = {
         level_text="The async macros and API are run on real `async fn`s (free functions and a method, by-value and by-reference parameters; u32, unit and 64-byte outputs; futures created and never polled, as the macros do): the solver decides that the entry that gets patched is <F as Future>::poll of exactly the named function's future type and that the poll functions of siblings - including one with the same output type - keep their bytes; that the decoded destination is the address of the function generated by async_return!, which returns Poll::Ready(v) on every call with v evaluated afresh (the value expression reads a cell the harness changes between calls); that histories fake / re-fake / fake sibling (unchecked flavour) / drop leave the latest in effect and restore everything. Output-type mismatches are refused by the C09 gate (sig_gate_async_differs).",
         level_note="Trusted: the replacement may ignore poll's arguments under the platform ABI; poll is called, not inlined; executor behaviour. Addresses of poll functions are the ones Kani assigns (concrete object ids), so address-placement generality is C01's, not this check's.",
         premises=["premise_async_refake_native"],
-        quick=["async_fake_one_of_family", "async_refake_same_function", "async_outputs_unit_and_large", "sig_gate_async_differs_6"],
-        thorough=["async_fake_one_of_family", "async_refake_same_function", "async_history_family", "async_outputs_unit_and_large", "sig_gate_async_differs_6"],
+        quick=["async_fake_one_of_family", "async_refake_same_function", "async_refake_unchecked_same_function", "async_outputs_unit_and_large", "sig_gate_async_differs_6"],
+        thorough=["async_fake_one_of_family", "async_refake_same_function", "async_refake_unchecked_same_function", "async_history_family", "async_outputs_unit_and_large", "sig_gate_async_differs_6"],
         outside=["executors / wakers / threads", "async functions with captured non-'static state beyond the family"],
     ),
     "C15": dict(
@@ -978,10 +981,12 @@ def _hex(vals):
 
 
 def replay_count_restarts(rec, work):
+    """same fake!(.., times: N) helper evaluated in consecutive lifetimes; the earlier lifetime leaves a count
+    above N (over-call) and, in a second scenario, below N, so that resets conditioned on the old value show"""
     cx = rec.get("counterexample") or {}
-    c = cx.get("c", 1)
     n = max(1, min(2, cx.get("n", 1)))
-    return _native(work, "relife %d %d\n" % (n, max(1, min(3, c if c < 4 else 1))), rec["harness"])
+    scn = "relife %d %d\nrelife %d %d\n" % (n, n + 1, n, max(1, n - 1))
+    return _native(work, scn, rec["harness"])
 
 
 def replay_bool_gate(rec, work):
